@@ -340,6 +340,49 @@ class World:
         self.n_rejected += 1
         return op[3]
 
+    def nested_lookup(self, rec, path, action, arg, compile=False):
+        """find(path) during which the first 'plug' conversion runs user code: action 'add' calls
+        add_route(arg, ..., compile=compile), action 'find' looks up the path `arg`.
+        -> (fired, problems).  The in-flight lookup has to answer like the reference walk on the tree as
+        it was before the nested call or as it is after it (the statement does not say which; anything
+        else is a result no tree dictates); the nested lookup and every later lookup are judged as usual."""
+        want_old = self.model.find(path)
+        fired = []
+
+        def hook(value):
+            fired.append(value)
+            if action == 'add':
+                fired.append(self.add(rec, arg, compile=compile))
+                fired.append(self.ops.pop())          # folded into the 'nested' op below
+            else:
+                fired.append(judge(self, arg))
+
+        PluginConv.hook = hook
+        try:
+            try:
+                got = self.router.find(path)
+            except Exception as ex:  # noqa
+                got = Raised(ex)
+        finally:
+            PluginConv.hook = None
+        self.ops.append(['nested', path, action, arg, bool(compile), fired[1] if fired and action == 'add' else None])
+        self.sig = None
+        problems = []
+        if not fired:
+            d = diff(got, want_old)
+            if d is not None:
+                problems.append(d)
+            return False, problems
+        if action == 'find' and fired[1] is not None:
+            problems.append(('nested-' + fired[1][0],) + tuple(fired[1][1:]))
+        want_new = self.model.find(path)
+        d_old, d_new = diff(got, want_old), diff(got, want_new)
+        if d_old is not None and d_new is not None:
+            kind = 'find-raised' if isinstance(got, Raised) else 'in-flight-lookup-follows-neither-tree'
+            problems.append((kind, d_old[1], {'tree-before-nested-call': summary(want_old),
+                                              'tree-after-nested-call': summary(want_new)}))
+        return True, problems
+
     def signature(self):
         if self.sig is None:
             self.sig = h64([o[:3] + o[5:6] for o in self.ops])
@@ -364,6 +407,8 @@ def rebuild(ops, skip=()):
             continue
         if op[0] == 'add':
             w.add(None, op[1], op[2], fault=op[5] if len(op) > 5 else None)
+        elif op[0] == 'nested':
+            w.nested_lookup(None, op[1], op[2], op[3], op[4])
         else:
             w.ops.append(list(op))
             try:
@@ -506,6 +551,7 @@ def report(rec, w, path, verdict):
             small = shrink(w.ops, path, kind)
             if len(small) != len(w.ops):
                 wit['ops_shrunk_for_reading'] = small
+    rec.count('report.%s.%s' % (key or 'unattributed', kind))
     rec.violation(kind, wit, known_key=key)
     return key
 
@@ -849,6 +895,11 @@ REFUSED_SPECIALS = [
             '/f/{y1:int}.{p1:path}.{w1:int}', '/{p0:path}.{y0:int}.{w0:float}', '/{y0:uuid}_{p0:rest}',
             '/{y0:float}_{w0:int}_{p0:rest}', '/f/{y1:int}-{p1:rest}-{w1:float}', '/{y0}.{w0:int}.{p0:path}',
             '/f/{y1:int(min=0)}.{w1:uuid}.{p1:path}/g']
+# a field name with a trailing newline (passes an identifier test that uses '$'); inside a multi-field
+# segment such a template is refused with an error that is not UnacceptableRouteError, below new segments
+REFUSED_SPECIALS += ['/f/{y1\n}.json', '/f/g/{y2\n}-{w2}', '/f/x{y1\n:int}', '/{y0\n}.{w0}/g']
+# ... and as a whole-segment field (recorded finding K_IDENT_NL while the real router accepts it)
+NEWLINE_NAME_SPECIALS = ['/{x0\n}', '/f/{x1\n:int}']
 REFUSED_PARTNERS = ['/f/{x1}', '/f/g', '/{x0}/g', '/f/{y1:int}.{w1}']
 
 PAIR_SHAPES = {
@@ -910,6 +961,10 @@ def exhaustive(rec):
             one([s, t], True)
             one([t, s], True)
             one([t, s, t.rstrip('/') + '/h'], True)       # a further add forces a recompile
+    for s in NEWLINE_NAME_SPECIALS:
+        one([s], True)
+        for t in REFUSED_PARTNERS:
+            one([t, s], True)
     rec.count('exhaustive.refused-specials-done')
     T3 = templates_over(TRIPLE_SHAPES[tier])
     for triple in itertools.product(T3, repeat=3):
@@ -958,6 +1013,73 @@ def refused_calls(rec):
                         run_batch(rec, w, paths)
                     rec.count('refused-calls.scenarios')
     rec.count('refused-calls.done')
+
+
+# ---------------------------------------------------------------- user code running inside a lookup
+
+RE_BASES = [
+    ['/plugins/{name:plug}/status'],
+    ['/plugins/{name:plug}'],
+    ['/p/{a1:plug}-{b1}/x', '/p/{c1}'],
+    ['/q/{name:plug}/status', '/q/zz/other', '/{top}/x'],
+]
+RE_NEW = ['/plugins/all', '/plugins/{name:plug}/status/more', '/a0', '/zzz', '/plugins/{name:plug}/aaa', '/{top}',
+          '/p/all', '/p/{a1:plug}-{b1}/x', '/q/aa/status', '/plugins/{name:plug}/status', '/q/{name:plug}/a',
+          '/plugins/{other}', '/plugins/{name:plug}/{p:path}/x']       # the last two are refused
+
+
+def run_nested(rec, w, path, action, arg, compile):
+    fired, problems = w.nested_lookup(rec, path, action, arg, compile)
+    rec.count('mon.nested.%s%s' % (action, '' if fired else '.converter-not-reached'))
+    if fired:
+        rec.case((w.signature(), 'nested', path))
+    else:
+        rec.case(None)
+    for kind, got, want in problems:
+        rec.count('report.unattributed.' + kind)
+        rec.violation(kind, {'ops': [list(o) for o in w.ops], 'got': got, 'want': want, 'attributed_to': None})
+        if kind == 'find-raised':
+            w.dead = 'find raises'
+    return fired
+
+
+def reentrant(rec):
+    """Single-threaded re-entrancy: a converter that registers a route (accepted or refused, with and
+    without compile=True) or performs another lookup while the lookup that called it is in flight.
+    Every base route set x every new template x compile flag x every representative path (a fresh router
+    each), then the whole batch on the resulting tree.  Enumerated completely, sharded by index."""
+    idx = 0
+    for base in RE_BASES:
+        for new in RE_NEW:
+            paths = list(all_paths(level_reps(base + [new], lean=True)))
+            if len(paths) > 120:
+                paths = paths[::len(paths) // 120 + 1]
+            # in-flight lookups: every instantiation of a template that carries the converter (+ one level)
+            inflight = []
+            for t in base + [new]:
+                if ':plug' in t:
+                    for combo in itertools.product(*[seg_reps(x, False, True) for x in M.split_template(t)]):
+                        inflight.append('/' + '/'.join(combo))
+                        inflight.append('/' + '/'.join(combo) + '/zz')
+            inflight = list(dict.fromkeys(inflight))
+            for cflag in (True, False):
+                for path in inflight:
+                    idx += 1
+                    if idx % rec.nshards != rec.shard:
+                        continue
+                    w = World('std', idx % len(RES_MODES))
+                    for t in base:
+                        w.add(rec, t)
+                    if idx % 3:                       # compiled before / compiled by the in-flight lookup itself
+                        w.router.find('/')
+                        w.ops.append(['find', '/'])
+                    if run_nested(rec, w, path, 'add', new, cflag) and w.dead is None:
+                        rec.count('reentrant.in-flight-adds')
+                    if w.dead is None:
+                        run_batch(rec, w, paths)
+                    if w.dead is None and idx % 4 == 0:
+                        run_nested(rec, w, path, 'find', paths[idx % len(paths)], False)
+    rec.count('reentrant.done')
 
 
 # ---------------------------------------------------------------- several routers in one process
@@ -1094,7 +1216,7 @@ class Gen:
         """A template intended to be refused, with the reason it was built for."""
         rng = self.rng
         kinds = ['dup-field', 'unknown-conv', 'missing-conv', 'bad-ident', 'whitespace', 'bad-conv-args',
-                 'path-not-last', 'path-in-complex', 'path-among-converters']
+                 'path-not-last', 'path-in-complex', 'path-among-converters', 'ident-newline-in-complex']
         ctx = {}
         for t in accepted:
             segs = M.split_template(t)
@@ -1127,7 +1249,12 @@ class Gen:
         elif kind == 'missing-conv':
             tail = ['{u%d:}' % lv]
         elif kind == 'bad-ident':
-            tail = [rng.choice(['{1x}', '{class}', '{}', '{x y}', '{é}', '{a-b}'])]
+            tail = [rng.choice(['{1x}', '{class}', '{}', '{x y}', '{é}', '{a-b}', '{ x}', '{x\t}'])]
+        elif kind == 'ident-newline-in-complex':
+            # refused, but not with UnacceptableRouteError, possibly below freshly created segments
+            if rng.random() < 0.6:
+                prefix = prefix + fresh_prefix
+            tail = [rng.choice(['{nl%d\n}.json', 'x{nl%d\n}', '{nl%d\n:int}-{o}', '{o}_{nl%d\n}']) % lv]
         elif kind == 'whitespace':
             tail = [rng.choice(['a b', 'a\tb', '{w%d} ' % lv, ' ', 'a b', 'a\nb'])]
         elif kind == 'bad-conv-args':
@@ -1255,7 +1382,8 @@ def random_history(rec, rng):
 # ---------------------------------------------------------------- entry points
 
 REJECT_FLOORS = ['dup-field', 'unknown-conv', 'missing-conv', 'bad-ident', 'whitespace', 'bad-conv-args',
-                 'path-not-last', 'path-in-complex', 'path-among-converters', 'child-of-path', 'conflict-simple', 'conflict-complex']
+                 'path-not-last', 'path-in-complex', 'path-among-converters', 'ident-newline-in-complex',
+                 'child-of-path', 'conflict-simple', 'conflict-complex']
 
 
 def run(rec):
@@ -1271,6 +1399,7 @@ def run(rec):
     rec.counters['keyed'] = 0
     cohabitation(rec)
     refused_calls(rec)
+    reentrant(rec)
     complete = exhaustive(rec)
     rec.exhaustive = bool(complete)
     if rec.shard == 0:
@@ -1290,6 +1419,9 @@ def run(rec):
     rec.floor('exhaustive.triples-done', rec.nshards)
     rec.floor('cohabitation.done', rec.nshards)
     rec.floor('refused-calls.done', rec.nshards)
+    rec.floor('reentrant.done', rec.nshards)
+    rec.floor('reentrant.in-flight-adds', 300)
+    rec.floor('mon.nested.find', 50)
     rec.floor('refused-calls.scenarios', 200)
     rec.floor('world.asgi', 50)
     for f in FAULTS:
@@ -1338,6 +1470,12 @@ def replay(rec, w):
             fault = op[5] if len(op) > 5 else None
             out = world.add(rec, op[1], op[2], fault=fault)
             print('add_route(%r, compile=%r%s) -> %s' % (op[1], op[2], ', fault=%s' % fault if fault else '', out))
+        elif op[0] == 'nested':
+            n0 = rec.counters.get('violations', 0)
+            fired = run_nested(rec, world, op[1], op[2], op[3], op[4])
+            print('find(%r) with a converter that calls %s(%r%s): converter %s, %d problem(s)' % (
+                op[1], 'add_route' if op[2] == 'add' else 'find', op[3], ', compile=True' if op[4] else '',
+                'reached' if fired else 'not reached', rec.counters.get('violations', 0) - n0))
         else:
             try:
                 world.router.find(op[1])
@@ -1347,6 +1485,10 @@ def replay(rec, w):
         out = world.add(rec, wit['template'], False)
         print('add_route(%r) -> %s' % (wit['template'], out))
         rec.case(('replay', wit['template']))
+        rec.case(('replay', 'x'))
+        return
+    if 'path' not in wit:            # the deciding operation was the last op (a nested lookup)
+        rec.case(('replay', 'nested'))
         rec.case(('replay', 'x'))
         return
     v = judge(world, wit['path'])
